@@ -57,6 +57,21 @@ CHECKS = {
              "e2e correspondence; the kernel model's two events are a hand-written table",
         technique="Lean 4 iff theorem over the channel stack model + whole-table decide over regenerated tables + differential ovniemu runs",
         design="DESIGN.md §5 C08"),
+    "C13": dict(
+        text=("Theorems (Props/C13.lean, 16) over the Paraver writer model (prv_advance guard, lines written at the current "
+              "time, header rewritten at close) and the record generation of the reference emulator: for every accepted "
+              "sequence of steps the lines are in non-decreasing time order, none is later than the header duration, which is "
+              "the clock of the last step (prv_times_monotone), a backwards step is refused; every record belongs to the row "
+              "gindex+1 of an existing thread/CPU and its type is one of the types declared in the matching .pcf "
+              "(records_rows_types, with specs_consistent by decide over regenerated specs); table/initial/default values are "
+              "labelled (init_values_labelled + C08 tables_labelled); the .row file has one name per row. Tie: on every "
+              "accepted generated trace independent Python parsers check thread/cpu .prv/.pcf/.row (time order, row range, "
+              "duration = last event time, types declared, state values labelled, row names in documented order) and the "
+              "timelines equal the Lean reference emulator's. Found and repaired: cpu.pcf did not declare CPU types 1,2,3."),
+        note=TB + "; PCF contents and row names are checked on the files (oracle), the model states which types are declared; "
+             "task-type and mark labels (dynamic) are covered by C07/C17",
+        technique="Lean 4 invariant proof over the PRV writer + record typing lemma + independent parsers on ovniemu output",
+        design="DESIGN.md §5 C13"),
     "C14": dict(
         text=("Theorems (Props/C14.lean, 22): compatibility iff same major and minor<=; well-formed a.b.c[-suffix] "
               "parses to (a,b,c); NULL, >=64 chars, missing field, non-numeric field, negative field are refused; "
